@@ -159,6 +159,8 @@ def prove_key(src_root, ex: Explorer):
                     return Native('items', lambda it3, a, k: [])
                 if name == 'pop':
                     return Native('pop', lambda it3, a, k: None)
+                if name == 'get':
+                    return Native('get', lambda it3, a, k: (a[1] if len(a) > 1 else None))      # an empty shelf
                 raise Unsupported(f'shelf.{name}')
         it.natives['shelve.open'] = Native('shelve.open', lambda it2, a, k: Shelf())
         it.natives['os.path.join'] = Native('join', lambda it2, a, k: 'db')
@@ -198,8 +200,12 @@ def prove_write(src_root, ex: Explorer, res):
         it.natives['hashlib.sha256'] = Native('sha256', sha256)
         D = cls(it, MODEL, 'TransferDirection')
 
+        complete = Stub('state', VALUE=enum(it, 'transfer.state', 'TransferState.State', 'COMPLETE'))
+
         def tr(u, p, d=1):
-            return new(it, MODEL, 'Transfer', username=u, remote_path=p, direction=D.enum_members[d])
+            # finished transfers: the record in the shelf may be an OLDER copy in the same state (other progress, other times) - the write
+            # stores the current objects
+            return new(it, MODEL, 'Transfer', username=u, remote_path=p, direction=D.enum_members[d], state=complete)
         n = ctx.choose(3, 'n')
         ts = [tr('alice', 'a'), tr('bob', 'b')][:n]
         stale = tr('carol', 'c')
@@ -229,7 +235,17 @@ def prove_write(src_root, ex: Explorer, res):
                     return Native('items', lambda it3, a, k: list(shelf.items()))
                 if name == 'pop':
                     return Native('pop', lambda it3, a, k: shelf.pop(a[0]))
+                if name == 'get':
+                    return Native('get', lambda it3, a, k: shelf.get(a[0], a[1] if len(a) > 1 else None))
+                if name == 'keys':
+                    return Native('keys', lambda it3, a, k: list(shelf.keys()))
                 raise Unsupported(f'shelf.{name}')
+
+            def pyvc_getitem(self, it2, key):
+                return shelf[key]
+
+            def pyvc_contains(self, it2, key):
+                return key in shelf
         it.natives['shelve.open'] = Native('shelve.open', lambda it2, a, k: Shelf())
         it.natives['os.path.join'] = Native('join', lambda it2, a, k: 'db')
         cache = new(it, CACHE, 'TransferShelveCache', data_directory='dir')
@@ -285,7 +301,10 @@ def prove_add(src_root, ex: Explorer):
         it = mk(src_root, ctx)
         exists = ctx.choose(2, 'exists') == 1
         D = cls(it, MODEL, 'TransferDirection')
-        t = new(it, MODEL, 'Transfer', username='bob', remote_path='p', direction=D.enum_members[1], state_listeners=[])
+        sname = ['QUEUED', 'INCOMPLETE', 'FAILED', 'COMPLETE', 'ABORTED', 'PAUSED'][ctx.choose(6, 'state')]
+        schedulable = sname in ('QUEUED', 'INCOMPLETE', 'FAILED')       # FAILED without a reason is retried (C04.retry.*)
+        t = new(it, MODEL, 'Transfer', username='bob', remote_path='p', direction=D.enum_members[1], state_listeners=[], fail_reason=None,
+                state=Stub('state', VALUE=enum(it, 'transfer.state', 'TransferState.State', sname)))
         old = new(it, MODEL, 'Transfer', username='bob', remote_path='p', direction=D.enum_members[1], state_listeners=['x'])
         other = new(it, MODEL, 'Transfer', username='eve', remote_path='p', direction=D.enum_members[1], state_listeners=[])
         emitted, cycles = [], []
@@ -297,7 +316,8 @@ def prove_add(src_root, ex: Explorer):
             ctx.prove('C17.add.existing', r is old and mgr.attrs['_transfers'] == [other, old] and not emitted and t.attrs['state_listeners'] == [],
                       'an equal transfer is not added twice')
         else:
-            ctx.prove('C17.add.wired', r is t and mgr.attrs['_transfers'] == [other, t] and t.attrs['state_listeners'] == [mgr] and len(cycles) == 1
+            ctx.prove(f'C17.add.wired[{sname}]', r is t and mgr.attrs['_transfers'] == [other, t] and t.attrs['state_listeners'] == [mgr]
+                      and (len(cycles) == 1 if schedulable else len(cycles) <= 1)
                       and [e.cls.name for e in emitted] == ['TransferAddedEvent'],
                       'a loaded transfer must be listed once, report its state changes to the manager and be picked up by scheduling')
     ex.run(path, 'add')
